@@ -46,7 +46,8 @@ OBLIGATIONS = {"intersect": 100, "intersect:partial-left": 5,
                "intersect:reused-object-other-set": 30, "intersect:split-grid": 50,
                "intersect:target-dtype": 30, "intersect:same-shape-shifted": 10,
                "voronoi:near-tie": 5, "voronoi:mirror-pair-decimal": 3,
-               "intersect:target-is-clipped-grid": 10}
+               "intersect:target-is-clipped-grid": 10, "intersect:sum-of-catchments": 10,
+               "voronoi:catchment-with-delineation-history": 5}
 
 
 def mods():
@@ -66,6 +67,22 @@ def make_catchment(fine, cells, filled=None):
     return g.Catchment.from_dict(dic)
 
 
+def catchment_with_history(case):
+    """the catchment object was delineated before with inlets (which cut part of the area
+    off), then again for the same outlet without any: its area is the whole one"""
+    g = mods()
+    h = case["history"]
+    fine = case["fine"]
+    fd = g.Grid("fd", fine["ncols"], fine["nrows"], cellsize=fine["csz"],
+                xllcorner=fine["xll"], yllcorner=fine["yll"], dtype=np.int64)
+    fd.data = np.asarray(h["codes"], dtype=np.int64)
+    cat = g.Catchment("c", fd)
+    n = fine["ncols"] * fine["nrows"]
+    cat.delineate_area(int(h["outlet"]), [int(i) for i in h["inlets"]], nval=n + 5)
+    cat.delineate_area(int(h["outlet"]), nval=n + 5)
+    return cat
+
+
 def run_intersect_case(ctx, case):
     g = mods()
     fine, coarse = case["fine"], case["coarse"]
@@ -77,6 +94,13 @@ def run_intersect_case(ctx, case):
     if case.get("delineated"):
         ctx.tag("intersect:delineated")
     cat = make_catchment(fine, cells, filled_cells)
+    if case.get("via_sum") and len(cells) >= 2:
+        # the catchment is the sum of two sub-catchments (ca1 + ca2), the first of them
+        # small: its area is the union of the two areas
+        k = max(1, len(cells) // 4)
+        order = sorted(cells)
+        cat = make_catchment(fine, order[:k]) + make_catchment(fine, order[k:])
+        ctx.tag("intersect:sum-of-catchments")
     # the grid the weights are wanted for is often a mask or a land-cover grid
     cdt = [np.float64, np.int32, np.float64, np.uint8, np.float32, np.int64][
         (len(cells) + coarse["ncols"]) % 6]
@@ -109,6 +133,8 @@ def run_intersect_case(ctx, case):
             case = dict(case, coarse=coarse)
     # the same catchment object answers for both cell sets, in any order of asking
     seq = [first, not first, first] if case.get("reuse", True) else [first]
+    if case.get("via_sum") and len(cells) >= 2:
+        seq = [False, False]      # (the filled area of a sum is not defined by the API)
     if len(seq) > 1 and set(filled_cells) != set(cells):
         ctx.tag("intersect:reused-object-other-set")
     for i, use_filled in enumerate(seq):
@@ -311,7 +337,7 @@ def split_consistency(ctx, g, cat, coarse, use_filled, whole, case):
                   lambda: {"whole": whole, "two_parts": got, "cut_at": cut})
 
 
-def run_voronoi_case(ctx, case):
+def run_voronoi_case(ctx, case, cat=None):
     g = mods()
     fine = case["fine"]
     cells = [int(c) for c in case["cells"]]
@@ -322,7 +348,12 @@ def run_voronoi_case(ctx, case):
         ctx.tag("voronoi:more-cells-than-points")
     if len(pts) > len(cells):
         ctx.tag("voronoi:more-points-than-cells")
-    cat = make_catchment(fine, cells)
+    if cat is None and case.get("history") is not None:
+        cat = catchment_with_history(case)
+    if cat is None:
+        cat = make_catchment(fine, cells)
+    else:
+        ctx.tag("voronoi:catchment-with-delineation-history")
     gf = Geom(fine["nrows"], fine["ncols"], fine["xll"], fine["yll"], fine["csz"])
     if fine["xll"] != 0 or fine["yll"] != 0:
         ctx.tag("voronoi:grid-origin-not-0")
@@ -413,6 +444,12 @@ def run(ctx):
             cells = [int(c) for c in cat.idxcells_area]
             filled_cells = [int(c) for c in cat.idxcells_area_filled]
             delineated = len(cells) > 0
+            hist = None
+            if len(cells) >= 3:
+                inl = [c_ for c_ in cells if c_ != o]
+                hist = {"codes": codes.tolist(), "outlet": o,
+                        "inlets": [int(v) for v in rng.choice(inl, size=min(2, len(inl)),
+                                                              replace=False)]}
             if not cells:
                 cells = [o]
                 filled_cells = [o]
@@ -421,6 +458,8 @@ def run(ctx):
             cells = [int(c) for c in rng.choice(n, size=k, replace=False)]
             filled_cells = sorted(set(cells) | set(
                 int(c) for c in rng.choice(n, size=min(n, 2), replace=False)))
+        if not delineated:
+            hist = None
         ratio = [1.0, 2.0, 3.0, 4.0, 2.5, 1.5][int(rng.integers(0, 6))]
         ccsz = fcsz * ratio
         mode = it % 6
@@ -468,6 +507,8 @@ def run(ctx):
                 "delineated": delineated}
         if it % 3 == 1:
             case["clip_pads"] = [int(v) for v in rng.integers(0, 6, size=4)]
+        if it % 4 == 2 and not delineated:
+            case["via_sum"] = True
         run_intersect_case(ctx, case)
         if it0 % 25 == 0:
             ctx.sample(case)
@@ -525,8 +566,10 @@ def run(ctx):
         if it % 2 and not mirror:
             vf = {"nrows": nr, "ncols": nc, "csz": vsc, "xll": vox, "yll": voy}
             pts = np.asarray(pts, dtype=float) * vsc + np.array([vox, voy])
-        run_voronoi_case(ctx, {"kind": "voronoi", "fine": vf, "cells": vcells,
-                               "points": pts})
+        vcase = {"kind": "voronoi", "fine": vf, "cells": vcells, "points": pts}
+        if hist is not None and not mirror and vcells is cells:
+            vcase["history"] = hist
+        run_voronoi_case(ctx, vcase)
 
 
 def replay(ctx, case):
